@@ -1,4 +1,4 @@
-import Proofs.NameOrder4
+import Proofs.NameOrder5
 /-!
 # C06 — Name comparison is the DNSSEC canonical order, coherent with equality and hash
 
@@ -141,39 +141,62 @@ theorem derelativize_relativize (n o r : Name) (hn : WfName n) (hrel : isAbs n =
     (ho : isAbs o = true) (h : derelativize n o = .ok r) : relativize r o = .ok n :=
   (derel_rel n o r hn hrel ho h).2
 
-/-
-Full statement (property text: "A name's RFC 4471 successor within a zone sorts strictly after it (or
-wraps to the origin) and its predecessor strictly before it", for both values of `prefix_ok` and for
-relative names through `_handle_relativity_and_call`):
+/-- "A name's RFC 4471 successor within a zone sorts strictly after it (or wraps to the origin)": for
+both values of `prefix_ok`, any origin, all octets, absolute names and (through
+`_handle_relativity_and_call`: derelativize, compute, relativize) relative names, whenever `successor`
+returns, the result is the wrap-around value (the origin; the empty name for a relative name, which is the
+origin relativized) or sorts strictly after the name.  Holds because `@` is bumped to `[` and `Z` to `{`
+(the repaired D06). -/
+theorem successor_gt (n o r : Name) (p : Bool) (h : successor n o p = .ok r) :
+    r = (if isAbs n then o else []) ∨ cmpOrder n r < 0 := by
+  cases hn : isAbs n with
+  | true =>
+    obtain ⟨ho, hsub, hf⟩ := handleRelativity_abs absoluteSuccessor n o r p hn h
+    rcases absoluteSuccessor_gt n o r p hn ho hsub hf with e | e
+    · exact Or.inl (by simpa using e)
+    · exact Or.inr ((cmpOrder_lt_iff n r).2 e.1)
+  | false =>
+    rcases successor_rel n o r p hn h with e | e
+    · exact Or.inl (by simpa using e)
+    · exact Or.inr ((cmpOrder_lt_iff n r).2 e)
 
-  theorem successor_gt (n o r : Name) (p : Bool) (h : successor n o p = .ok r) :
-      nameEq r (if isAbs n then o else []) = true ∨ cmpOrder n r < 0
-  theorem predecessor_lt (n o r : Name) (p : Bool) (h : predecessor n o p = .ok r) :
-      nameEq n (if isAbs n then o else []) = true ∨ cmpOrder r n < 0
+/-- "… and its predecessor strictly before it": unless the name is the origin itself (the empty name for a
+relative name), where the predecessor wraps around to the longest name of the zone, the result sorts
+strictly before the name; both values of `prefix_ok`, absolute and relative names. -/
+theorem predecessor_lt (n o r : Name) (p : Bool) (h : predecessor n o p = .ok r) :
+    nameEq n (if isAbs n then o else []) = true ∨ cmpOrder r n < 0 := by
+  cases hn : isAbs n with
+  | true =>
+    obtain ⟨_, hsub, hf⟩ := handleRelativity_abs absolutePredecessor n o r p hn h
+    rcases absolutePredecessor_lt n o r p hn ((isSubdomain_iff n o).1 hsub).2 hf with e | e
+    · exact Or.inl (by simpa using e)
+    · exact Or.inr ((cmpOrder_lt_iff r n).2 e.1)
+  | false =>
+    rcases predecessor_rel n o r p hn h with e | e
+    · left; subst e; simp; decide
+    · exact Or.inr ((cmpOrder_lt_iff r n).2 e)
 
-Proved below for absolute names (guard `isAbs n = true`), both values of `prefix_ok`, any origin, all
-octets.  What is missing for relative names is only the transport of the order through
-`derelativize … relativize` (the function applied in between is the one proved here); that path is
-covered by the correspondence check and the direct oracle.
--/
-
-/-- successor, absolute names: the result is the origin (wrap-around, "end of zone") or sorts strictly
-after the name.  Holds because `@` is bumped to `[` and `Z` to `{` (the repaired D06). -/
-theorem successor_gt_partial (n o r : Name) (p : Bool) (hn : isAbs n = true)
-    (h : successor n o p = .ok r) : r = o ∨ cmpOrder n r < 0 := by
-  obtain ⟨ho, hsub, hf⟩ := handleRelativity_abs absoluteSuccessor n o r p hn h
-  rcases absoluteSuccessor_gt n o r p hn ho hsub hf with e | e
-  · exact Or.inl e
-  · exact Or.inr ((cmpOrder_lt_iff n r).2 e)
-
-/-- predecessor, absolute names: unless the name is the origin (wrap-around to the longest name), the
-result sorts strictly before the name. -/
-theorem predecessor_lt_partial (n o r : Name) (p : Bool) (hn : isAbs n = true)
-    (h : predecessor n o p = .ok r) : nameEq n o = true ∨ cmpOrder r n < 0 := by
-  obtain ⟨_, _, hf⟩ := handleRelativity_abs absolutePredecessor n o r p hn h
-  rcases absolutePredecessor_lt n o r p hn hf with e | e
-  · exact Or.inl e
-  · exact Or.inr ((cmpOrder_lt_iff r n).2 e)
+/-- successor and predecessor never leave the zone or the limits: a result other than the wrap-around is a
+legal name at or below the origin (absolute names). -/
+theorem successor_predecessor_in_zone (n o r : Name) (p : Bool) (hn : isAbs n = true) :
+    (successor n o p = .ok r → r = o ∨ (WfName r ∧ isSubdomain r o = true)) ∧
+    (predecessor n o p = .ok r → nameEq n o = true ∨ (WfName r ∧ lowerName o <:+ lowerName r)) := by
+  constructor
+  · intro h
+    obtain ⟨ho, hsub, hf⟩ := handleRelativity_abs absoluteSuccessor n o r p hn h
+    rcases absoluteSuccessor_gt n o r p hn ho hsub hf with e | ⟨_, hw, hs⟩
+    · exact Or.inl e
+    · right
+      refine ⟨hw, (isSubdomain_iff r o).2 ⟨?_, hs⟩⟩
+      have hlone : lowerName o ≠ [] := by
+        have := ne_nil_of_isAbs ho; simpa [lowerName] using this
+      rw [← isAbs_lowerName r, ← isAbs_lowerName o]
+      exact isAbs_of_suffix _ _ hlone hs
+  · intro h
+    obtain ⟨_, hsub, hf⟩ := handleRelativity_abs absolutePredecessor n o r p hn h
+    rcases absolutePredecessor_lt n o r p hn ((isSubdomain_iff n o).1 hsub).2 hf with e | ⟨_, hb⟩
+    · exact Or.inl e
+    · exact Or.inr hb
 
 /-! ## non-vacuity and the witnesses named in the property text -/
 
@@ -191,6 +214,10 @@ example : fullcompare [[119], [101], []] [[101], []] = (2, 1, 2) ∧
 example : ∃ r, successor [List.replicate 63 90, [101], []] [[101], []] false = .ok r ∧
     cmpOrder [List.replicate 63 90, [101], []] r < 0 := by
   refine ⟨[List.replicate 62 90 ++ [123], [101], []], by rfl, by decide⟩
+-- a relative name: successor computed under the origin and relativized again
+example : successor [[97, 64]] [[101], []] false = .ok [[97, 64, 0]] ∧
+    predecessor [[97, 91]] [[101], []] false = .ok [[97, 64] ++ List.replicate 61 255] := by
+  refine ⟨by rfl, by rfl⟩
 -- hypotheses of the round trips are satisfiable
 example : WfName [[87], [69, 120], []] ∧ isAbs [[87], [69, 120], []] = true ∧
     relativize [[87], [69, 120], []] [[101, 88], []] = .ok [[87]] ∧
